@@ -376,6 +376,24 @@ impl HelperDef for Wr {
     }
 }
 
+/// like `Wr`, but through the `write!` macro with format arguments (`Output::write_fmt`): the text of the first parameter
+struct WFmt;
+impl HelperDef for WFmt {
+    fn call<'reg: 'rc, 'rc>(
+        &self,
+        h: &Helper<'rc>,
+        _: &'reg Handlebars<'reg>,
+        _: &'rc Context,
+        _: &mut RenderContext<'reg, 'rc>,
+        out: &mut dyn Output,
+    ) -> HelperResult {
+        use handlebars::JsonRender;
+        let s = h.param(0).map(|p| p.value().render()).unwrap_or_default();
+        write!(out, "{}", s)?;
+        Ok(())
+    }
+}
+
 struct VRet;
 impl HelperDef for VRet {
     fn call_inner<'reg: 'rc, 'rc>(
@@ -445,6 +463,7 @@ fn mk_registry(cfg: &Value) -> Handlebars<'static> {
                 "rcstate" => r.register_helper(name, Box::new(RcState)),
                 "vret" => r.register_helper(name, Box::new(VRet)),
                 "wr" => r.register_helper(name, Box::new(Wr)),
+                "wfmt" => r.register_helper(name, Box::new(WFmt)),
                 "counter" => r.register_helper(name, Box::new(Counter)),
                 "macro" => {
                     let sig_name = h["sig"]["name"].as_str().unwrap();
@@ -477,6 +496,8 @@ fn mk_registry(cfg: &Value) -> Handlebars<'static> {
 struct FaultWriter {
     calls: usize,
     fail_at: Option<usize>,
+    /// a short-write writer: accepts at most this many bytes per call
+    short: Option<usize>,
     buf: Vec<u8>,
 }
 
@@ -487,8 +508,12 @@ impl Write for FaultWriter {
             return Err(std::io::Error::new(std::io::ErrorKind::Other, "planted fault"));
         }
         self.calls += 1;
-        self.buf.extend_from_slice(b);
-        Ok(b.len())
+        let n = match self.short {
+            Some(m) => b.len().min(m.max(1)),
+            None => b.len(),
+        };
+        self.buf.extend_from_slice(&b[..n]);
+        Ok(n)
     }
     fn flush(&mut self) -> std::io::Result<()> {
         Ok(())
@@ -506,7 +531,8 @@ fn render_once(r: &Handlebars<'static>, op: &Value) -> Value {
         Ok(s) => json!({"r":"ok","out":s}),
         Err(e) => rerr_json(&e, ""),
     };
-    let mut w = FaultWriter { calls: 0, fail_at, buf: vec![] };
+    let short = op.get("short").and_then(|v| v.as_u64()).map(|k| k as usize);
+    let mut w = FaultWriter { calls: 0, fail_at, short, buf: vec![] };
     let finw = |res: Result<(), RenderError>, w: &FaultWriter| {
         let written = String::from_utf8_lossy(&w.buf).to_string();
         match res {
